@@ -28,6 +28,19 @@ BOOL_TESTS = {
 }
 
 
+# pure views of the same object (used to identify a matched value across repeated `.as_slice()` etc.)
+VIEW_PASS = {
+    "std::array::<impl [T; N]>::as_slice": {"args": [0], "proj": lambda p: p},
+    "core::array::<impl [T; N]>::as_slice": {"args": [0], "proj": lambda p: p},
+    "std::vec::Vec::<T, A>::as_slice": {"args": [0], "proj": lambda p: p},
+    "std::ops::Deref::deref": {"args": [0], "proj": lambda p: p},
+    "std::convert::AsRef::as_ref": {"args": [0], "proj": lambda p: p},
+    "std::string::String::as_str": {"args": [0], "proj": lambda p: p},
+    "std::string::String::as_bytes": {"args": [0], "proj": lambda p: p},
+    "core::str::<impl str>::as_bytes": {"args": [0], "proj": lambda p: p},
+}
+
+
 def canon(body, place_or_op, passthrough=None):
     """Canonical identity of the value a place denotes (through moves, refs and reborrows)."""
     lv = body.origins(place_or_op, passthrough=passthrough if passthrough is not None else {})
@@ -42,7 +55,41 @@ def canon(body, place_or_op, passthrough=None):
             keys.add((l["kind"], l.get("bb"), proj))
     if len(keys) == 1:
         return next(iter(keys))
-    return None
+    return root_place(body, place_or_op)
+
+
+def root_place(body, place_or_op):
+    """Fallback identity for values with several possible origins (e.g. assigned in both arms of a
+    match): the local that holds them, reached through single-definition moves / refs / tuple fields."""
+    pl = place_or_op if ("l" in place_or_op and "p" in place_or_op) else op_place(place_or_op)
+    if pl is None:
+        return None
+    l = pl["l"]
+    proj = tuple(proj_key(p) for p in pl["p"])
+    for _ in range(24):
+        ds = [d for d in body.defs(l) if not d[4]]
+        if len(ds) != 1 or ds[0][2] != "assign" or (1 <= l <= body.argc):
+            break
+        rv = ds[0][3]["rv"]
+        if rv["r"] == "use" and op_place(rv["o"]) is not None:
+            src = op_place(rv["o"])
+            l, proj = src["l"], tuple(proj_key(p) for p in src["p"]) + proj
+            continue
+        if rv["r"] == "ref":
+            src = rv["p"]
+            if proj and proj[0] == "*":
+                l, proj = src["l"], tuple(proj_key(p) for p in src["p"]) + proj[1:]
+                continue
+            break
+        if rv["r"] == "agg" and rv["ak"] == "tuple" and proj and proj[0].startswith(".") and proj[0][1:].isdigit():
+            i = int(proj[0][1:])
+            if i < len(rv["ops"]) and op_place(rv["ops"][i]) is not None:
+                src = op_place(rv["ops"][i])
+                l, proj = src["l"], tuple(proj_key(p) for p in src["p"]) + proj[1:]
+                continue
+        break
+    proj = tuple(p for p in proj if p != "*")
+    return ("local", l, proj)
 
 
 class PathExplorer:
@@ -89,6 +136,24 @@ class PathExplorer:
         bb, facts, flags, nexted, ret = node
         t = body.term(bb)
         k = t["t"]
+        if facts:
+            dead = set()
+            for st in body.stmts(bb):
+                if st["k"] != "assign":
+                    continue
+                if not st["lhs"]["p"]:
+                    dead.add(st["lhs"]["l"])
+                rv = st["rv"]
+                if rv["r"] == "ref" and rv.get("mut") and not rv["p"]["p"]:
+                    dead.add(rv["p"]["l"])
+            if dead:
+                defbbs = set()
+                for l in dead:
+                    for d in body.defs(l):
+                        defbbs.add(d[0])
+                facts = frozenset(f for f in facts if not (
+                    (f[1][0] == "local" and f[1][1] in dead) or
+                    (f[1][0] in ("agg", "repeat") and f[1][1] in defbbs and any(body.defs(l) and body.defs(l)[0][0] == f[1][1] for l in dead))))
         if bb in self.ok_blocks:
             ret = "ok"
         elif bb in self.err_blocks:
@@ -104,6 +169,17 @@ class PathExplorer:
             add = self.on_call(c, flags)
             if add:
                 flags = flags | frozenset(add)
+            if c.decl == "std::ops::Try::branch" and c.args:
+                # Continue/Break mirrors Ok/Err (Some/None) of the operand
+                K = canon(body, c.args[0])
+                if K is not None:
+                    for f in facts:
+                        if f[0] == "d" and f[1] == K:
+                            ty = body.local_ty(c.dest["l"]) if c.dest and not c.dest["p"] else ""
+                            v = f[2]
+                            if "std::option::Option<" in ty.split(",")[0]:
+                                v = 1 - v   # None(0)->Break(1), Some(1)->Continue(0)
+                            facts = facts | {("d", ("call", bb, ()), v)}
             if c.decl == "std::iter::Iterator::next":
                 from engine import PASS_THROUGH
                 K = canon(body, c.args[0], PASS_THROUGH)
@@ -122,8 +198,8 @@ class PathExplorer:
         if k == "switch":
             info = switch_info(body, bb)
             out = []
-            if info["kind"] == "discr":
-                key = canon(body, info["place"])
+            if info["kind"] in ("discr", "value"):
+                key = canon(body, info["place"], VIEW_PASS if info["kind"] == "value" else None)
                 known = None
                 if key is not None:
                     for f in facts:
@@ -138,12 +214,16 @@ class PathExplorer:
                     out.append((tgt, nf, flags, nexted, ret))
                     seen_t.add(tgt)
                 # otherwise branch: for two-variant enums with one listed value the other is implied
-                if info["otherwise"] not in seen_t or True:
+                if not info.get("otherwise_dead"):
                     nf = facts
                     vals = set(info["targets"].keys())
-                    if key is not None and vals == {0}:
+                    allv = set(info.get("vals") or [])
+                    rest = allv - vals
+                    if key is not None and len(rest) == 1:
+                        nf = facts | {("d", key, next(iter(rest)))}
+                    elif key is not None and not allv and vals == {0}:
                         nf = facts | {("d", key, 1)}
-                    elif key is not None and vals == {1}:
+                    elif key is not None and not allv and vals == {1}:
                         nf = facts | {("d", key, 0)}
                     if not self._is_unreachable(info["otherwise"]):
                         out.append((info["otherwise"], nf, flags, nexted, ret))
@@ -172,6 +252,25 @@ class PathExplorer:
                             return [((info["true"] if known == tv else info["false"]), facts, flags, nexted, ret)]
                         return [(info["true"], facts | {("empty", key, tv)}, flags, nexted, ret),
                                 (info["false"], facts | {("empty", key, not tv)}, flags, nexted, ret)]
+            if info["kind"] == "cmp":
+                # statically decided comparisons (e.g. the length of a fixed-size array view)
+                from audit import Intervals
+                rv = info["stmt"]["rv"]
+                iv = Intervals(body)
+                a = iv.of_operand(rv["a"], bb)
+                b_ = iv.of_operand(rv["b"], bb)
+                verdict = None
+                if a is not None and b_ is not None:
+                    op = rv["op"]
+                    if a.lo == a.hi == b_.lo == b_.hi:
+                        verdict = {"Eq": True, "Ne": False, "Le": True, "Ge": True, "Lt": False, "Gt": False}.get(op)
+                    elif a.hi < b_.lo:
+                        verdict = {"Eq": False, "Ne": True, "Lt": True, "Le": True, "Gt": False, "Ge": False}.get(op)
+                    elif a.lo > b_.hi:
+                        verdict = {"Eq": False, "Ne": True, "Lt": False, "Le": False, "Gt": True, "Ge": True}.get(op)
+                if verdict is not None:
+                    self.pruned += 1
+                    return [((info["true"] if verdict else info["false"]), facts, flags, nexted, ret)]
             for s in body.succ(bb):
                 if not self._is_unreachable(s):
                     out.append((s, facts, flags, nexted, ret))
